@@ -1059,6 +1059,9 @@ func oxmLenRule(w *World, r *Report) {
 		if fi.Recv != nil || fi.Decl.Body == nil || fi.Decl.Type.Results == nil || !strings.HasPrefix(key, "openflow13.") {
 			continue
 		}
+		if !ast.IsExported(fi.Decl.Name.Name) && w.calledFromModule(fi) {
+			continue // an unexported helper: decided through the exported functions that inline it
+		}
 		cs := w.CtorSummary(fi)
 		if cs == nil || cs.State == nil || cs.In == nil {
 			continue
@@ -1190,8 +1193,8 @@ func (w *World) registryWidthFor(fi *FuncInfo) (int64, bool) {
 			byName[e.Name] = e.Width
 		}
 	}
-	var find func(fi *FuncInfo, depth int) (int64, bool)
-	find = func(fi *FuncInfo, depth int) (int64, bool) {
+	var find func(fi *FuncInfo, depth int, bind map[types.Object]string) (int64, bool)
+	find = func(fi *FuncInfo, depth int, bind map[types.Object]string) (int64, bool) {
 		info := fi.Pkg.TypesInfo
 		var res int64
 		found, bad := false, false
@@ -1219,6 +1222,17 @@ func (w *World) registryWidthFor(fi *FuncInfo) (int64, bool) {
 						bad = true
 					}
 					return true
+				}
+				// the name is a parameter the caller bound to a constant
+				if id, ok := unparen(c.Args[0]).(*ast.Ident); ok {
+					if nm, bound := bind[info.Uses[id]]; bound {
+						if wd, ok := byName[nm]; ok {
+							set(wd)
+						} else {
+							bad = true
+						}
+						return true
+					}
 				}
 				// name := fmt.Sprintf("PREFIX%d", idx)
 				if id, ok := unparen(c.Args[0]).(*ast.Ident); ok {
@@ -1255,8 +1269,25 @@ func (w *World) registryWidthFor(fi *FuncInfo) (int64, bool) {
 					}
 				}
 				bad = true
-			case depth < 1 && w.FuncOf(fn) != nil && strings.HasSuffix(fn.Name(), "Header") && strings.HasPrefix(fn.Name(), "new"):
-				if v, ok := find(w.FuncOf(fn), depth+1); ok {
+			case depth < 2 && w.FuncOf(fn) != nil && w.FuncOf(fn) != fi && !ast.IsExported(fn.Name()) && w.FuncOf(fn).Decl.Body != nil:
+				// an unexported helper of the constructors: look inside, with its string parameters bound to the
+				// constants this call passes
+				hf := w.FuncOf(fn)
+				hb := map[types.Object]string{}
+				params := paramObjs(hf)
+				for i, a := range c.Args {
+					if i >= len(params) || params[i] == nil {
+						continue
+					}
+					if tv, ok := info.Types[a]; ok && tv.Value != nil && tv.Value.Kind() == constant.String {
+						hb[params[i]] = constant.StringVal(tv.Value)
+					} else if id, ok := unparen(a).(*ast.Ident); ok {
+						if nm, bound := bind[info.Uses[id]]; bound {
+							hb[params[i]] = nm
+						}
+					}
+				}
+				if v, ok := find(hf, depth+1, hb); ok {
 					set(v)
 				}
 			}
@@ -1264,7 +1295,7 @@ func (w *World) registryWidthFor(fi *FuncInfo) (int64, bool) {
 		})
 		return res, found && !bad
 	}
-	return find(fi, 0)
+	return find(fi, 0, nil)
 }
 
 // runWirelen applies the wirelen rule to every element kind with a declared length.
@@ -1324,4 +1355,27 @@ func elementKinds(w *World) (actions, instrs []*Kind, ok bool) {
 		}
 	}
 	return actions, instrs, true
+}
+
+// calledFromModule: some other function of the module calls fi.
+func (w *World) calledFromModule(fi *FuncInfo) bool {
+	if w.callerCache == nil {
+		w.callerCache = map[*types.Func]bool{}
+		for _, key := range w.sortedFuncKeys() {
+			g := w.Funcs[key]
+			if g.Decl.Body == nil {
+				continue
+			}
+			info := g.Pkg.TypesInfo
+			ast.Inspect(g.Decl.Body, func(n ast.Node) bool {
+				if c, ok := n.(*ast.CallExpr); ok {
+					if fn := w.calleeOf(info, c); fn != nil && fn != g.Obj {
+						w.callerCache[fn] = true
+					}
+				}
+				return true
+			})
+		}
+	}
+	return w.callerCache[fi.Obj]
 }
